@@ -26,21 +26,26 @@ EXTENDS LogRules
 CONSTANTS Keeps, Cycles, Sizes, Flushes, Reuses,   \* the rotation configuration is chosen initially from these
           HSize, RSize,     \* bytes of a header / of a record (equal for all logs of a configuration)
           RetryRefused, StopCycles,
-          Crashes           \* the process may be killed
+          Crashes           \* "never" | "any": the process may be killed at any point | "point": it is killed at the
+                            \* point chosen initially (a tick, before the environment's first action or right after the logger's turn)
 
 VARIABLES rcfg,             \* [keep, cycle, size, flush, reuse]
           ret, dur,
           cstamp, fstamp,   \* time of the last rotation attempt / flush
           crashed,
+          cp,               \* the chosen crash point [t, ph] (Crashes = "point")
           rotated, refused, flushed,   \* what the last step did (for coverage guards and RotateOnlyAtSize)
           stream,           \* History: stream[l] = all records log l ever wrote, in order
           fl,               \* History: fl[l] = number of records of stream[l] written before the most recent flush
           rotmark,          \* History: rotmark[l] = Len(stream[l]) at the last rotation of l
           dropped           \* History: dropped[l] = number of records of stream[l] rotated out of retention
 
-rotVars == <<rcfg, ret, dur, cstamp, fstamp, crashed, rotated, refused, flushed, stream, fl, rotmark, dropped>>
+rotVars == <<rcfg, ret, dur, cstamp, fstamp, crashed, cp, rotated, refused, flushed, stream, fl, rotmark, dropped>>
 allVars == <<vars, rotVars>>
 
+NoCP == [t |-> 0 - 1, ph |-> "none"]
+AtCP == Crashes = "point" /\ now = cp.t /\ phase = cp.ph
+Alive == ~crashed /\ ~AtCP
 EffKeep == IF rcfg.cycle = 0 THEN 0 ELSE rcfg.keep
 NFiles == EffKeep + 1
 Bytes(f) == LET b[i \in 0..Len(f)] == IF i = 0 THEN 0 ELSE b[i - 1] + (IF f[i].h THEN HSize ELSE RSize) IN b[Len(f)]
@@ -57,6 +62,7 @@ RInit == /\ Init
          /\ ret = [l \in cfg.logs |-> [k \in 1..NFiles |-> <<>>]]
          /\ dur = [l \in cfg.logs |-> [k \in 1..NFiles |-> 0]]
          /\ cstamp = 0 /\ fstamp = 0 /\ crashed = FALSE
+         /\ cp \in (IF Crashes = "point" THEN [t : 0..MaxTime, ph : {"pre", "post"}] ELSE {NoCP})
          /\ rotated = 0 /\ refused = FALSE /\ flushed = FALSE
          /\ stream = [l \in cfg.logs |-> <<>>] /\ fl = [l \in cfg.logs |-> 0] /\ rotmark = [l \in cfg.logs |-> 0] /\ dropped = [l \in cfg.logs |-> 0]
 
@@ -84,10 +90,10 @@ RunFiles(l, app, flushNow, cycleNow, stopping) ==
         x |-> (IF rot1 THEN Len(RecsOf(f0[NFiles])) ELSE 0) + (IF rot2 THEN Len(RecsOf(f1[NFiles])) ELSE 0)]
 
 RSlot ==
-    /\ ~crashed /\ Slot
+    /\ Alive /\ Slot
     /\ IF ~LogRun
          THEN /\ rotated' = 0 /\ refused' = FALSE /\ flushed' = FALSE
-              /\ UNCHANGED <<rcfg, ret, dur, cstamp, fstamp, crashed, stream, fl, rotmark, dropped>>
+              /\ UNCHANGED <<rcfg, ret, dur, cstamp, fstamp, crashed, cp, stream, fl, rotmark, dropped>>
          ELSE LET flushNow == now - fstamp >= rcfg.flush
                   cycleNow == EffKeep > 0 /\ now - cstamp >= rcfg.cycle
                   stopping == desire = "stop"
@@ -106,21 +112,21 @@ RSlot ==
                                ELSE IF flushNow THEN Len(stream[l]) ELSE fl[l]], fl)
                  /\ rotmark' = H([l \in cfg.logs |-> IF R[l].n > 0 THEN Len(stream[l]) + Len(RecsOf(out'[l])) ELSE rotmark[l]], rotmark)
                  /\ dropped' = H([l \in cfg.logs |-> dropped[l] + R[l].x], dropped)
-                 /\ UNCHANGED <<rcfg, crashed>>
+                 /\ UNCHANGED <<rcfg, crashed, cp>>
 
 Idle == rotated' = 0 /\ refused' = FALSE /\ flushed' = FALSE
-        /\ UNCHANGED <<rcfg, ret, dur, cstamp, fstamp, crashed, stream, fl, rotmark, dropped>>
+        /\ UNCHANGED <<rcfg, ret, dur, cstamp, fstamp, crashed, cp, stream, fl, rotmark, dropped>>
 
 \* the record stream of a streak log: some elements are queued before the logger's turn (the placement of writes around
 \* the logger is the subject of LogRules; here the environment only varies how much each run appends)
-RPushS == ~crashed /\ phase = "pre" /\ PushS(0) /\ Idle
-RBid(c) == ~crashed /\ Bid(c) /\ Idle
-RTick == ~crashed /\ Tick /\ Idle
+RPushS == Alive /\ phase = "pre" /\ PushS(0) /\ Idle
+RBid(c) == Alive /\ Bid(c) /\ Idle
+RTick == Alive /\ Tick /\ Idle
 
 \* the process dies: each file keeps (at least) its durable prefix
-Crash == /\ Crashes /\ ~crashed /\ crashed' = TRUE
+Crash == /\ ~crashed /\ (Crashes = "any" \/ AtCP) /\ crashed' = TRUE
          /\ ret' = [l \in cfg.logs |-> [k \in 1..NFiles |-> SubSeq(ret[l][k], 1, dur[l][k])]]
-         /\ UNCHANGED <<vars, rcfg, dur, cstamp, fstamp, rotated, refused, flushed, stream, fl, rotmark, dropped>>
+         /\ UNCHANGED <<vars, rcfg, dur, cstamp, fstamp, cp, rotated, refused, flushed, stream, fl, rotmark, dropped>>
 
 RNext == RPushS \/ (\E c \in {"stop", "start"} : RBid(c)) \/ RSlot \/ RTick \/ Crash
 RSpec == RInit /\ [][RNext]_allVars
